@@ -100,10 +100,32 @@ class Check(BaseCheck):
                 fails.append(core.Failure("correspondence", "orient_ vs model", "%s: impl %s | model %s" % (c["name"], got[:100], r[:100]), c))
                 if len(fails) > 5:
                     break
+        # meshes beyond the reach of the executable model (its flood is cubic in the triangle count): the statements the theorems make about
+        # the model's output (consistent orientation, same vertex sets, count of changed triangles, non-negative volume, idempotence) are
+        # evaluated on the implementation's output directly
+        for c in self.large_cases():
+            stats.case(core.mesh_key(c["v"], c["t"]), cls=["class:" + c["name"], "postconditions-only"], sample=dict(name=c["name"], nt=len(c["t"])))
+            vio = self.oracle(c)
+            stats.monitor("large meshes: orient_ postconditions evaluated")
+            if vio is not None:
+                fails.append(core.Failure("correspondence", "orient_ postconditions on large meshes", "%s: %s" % (c["name"], vio.what), c))
         return fails
 
+    def large_cases(self):
+        rng = gen.rng_for(self.seed, "c10-large")
+        n = 450 if self.quick else 1500
+        v, t = gen.grid(n, 1)                                   # long thin strip: the flood needs ~n sweeps
+        yield dict(v=gen.lift(rng, v, 0.2), t=gen.rotate_rows(rng, gen.flip_some(rng, t, 0.4)), name="strip-%d" % n)
+        tv, tt = gen.tetra_surface()                            # very many components
+        k = 150 if self.quick else 1200
+        vs = np.vstack([tv + 5.0 * np.array([i % 20, i // 20, 0.0]) for i in range(k)]); ts = np.vstack([tt + 4 * i for i in range(k)])
+        yield dict(v=vs, t=gen.rotate_rows(rng, gen.flip_some(rng, ts, 0.5)), name="components-%d" % k)
+        v, t = gen.torus(60, 8)                                 # long closed tube
+        yield dict(v=v, t=gen.flip_some(rng, t, 0.3), name="tube-60x8")
+
     def search_cases(self):
-        return self.cases()
+        yield from self.cases()
+        yield from self.large_cases()
 
     def oracle(self, case):
         v = np.asarray(case["v"], float); t = np.asarray(case["t"], dtype=np.int64)
